@@ -705,6 +705,21 @@ func checkUnary(c UnaryCase) error {
 			es.add(wantFail(src+" (called through the Go API)", v, err, "not a number in that base"))
 		}
 		vk.S.Class("parse:invalid-rejected")
+		// With automatic base detection a text of several zeros is either zero or rejected (the spec says "like an
+		// integer literal", the implementation and Python 3 accept it): never another value, never a crash.
+		if base == 0 && x.Sign() == 0 {
+			for _, z := range []string{"00", "000", "-00", "+000", "0000000000000000000000"} {
+				v, err := callBuiltin(e, "int", starlark.String(z), starlark.MakeInt(0))
+				if pe, isPanic := err.(*panicError); isPanic {
+					es.add(fmt.Errorf("int(%q, 0) panics: %v", z, pe))
+				} else if err == nil {
+					if i, ok := v.(starlark.Int); !ok || i.Sign() != 0 {
+						es.add(fmt.Errorf("int(%q, 0) = %v, want 0 or an error", z, v))
+					}
+				}
+				vk.S.Class("parse:all-zeros-base0")
+			}
+		}
 	}
 
 	e.run(probes, &es)
